@@ -35,6 +35,8 @@ pub fn err_class(e: &CelError) -> &'static str {
         CelError::Attribute { .. } => "Attribute",
         CelError::DivideByZero => "DivideByZero",
         CelError::Internal(_) => "Internal",
+        #[allow(unreachable_patterns)]
+        _ => "Other",
     }
 }
 
